@@ -95,9 +95,10 @@ def case_piecewise_linear():
     return [m], {'theta': P([2.0, 3.0], 0.01, None), 'tree.heights': P([1.0, 2.5], 0.01, None)}, 'm', {'heights_order': True}
 
 
-CASES = dict(C10.CASES)
-for k in ('likelihood:unrooted/weibull/HKY', 'likelihood:strict/constant/HKY', 'substitution:GTR.q', 'substitution:HKY.q'):
-    CASES.pop(k)  # the derivative through the eigh stub is not modelled (outside the claim)
+# the derivative through the eigh stub is not modelled (outside the claim): every C10 case whose substitution model is
+# diagonalised numerically (HKY, GTR) is left out, whatever C10 adds later
+CASES = {k: v for k, v in C10.CASES.items()
+         if not (k.startswith('likelihood:') and ('/HKY' in k or '/GTR' in k)) and k not in ('substitution:GTR.q', 'substitution:HKY.q')}
 CASES.update({
     'chain:node-height log-Jacobian': lambda: case_chain('jacobian'),
     'chain:constant coalescent on exp-transformed theta, ratio tree': lambda: case_chain('coalescent'),
